@@ -100,3 +100,24 @@ Definition dec_cobs (v : val) : cobs :=
 Definition x_C20conc_run (c : val) : val := enc_cobs (conc_model (as_nat (nthv 0 c))).
 Definition x_C20conc_ok (v : val) : val :=
   if (length (as_list (nthv 1 v)) =? 8)%nat then vbool (ok_conc (dec_cobs (nthv 1 v))) else VI 0.
+
+(* overlapping pulls with early consumers: case = (tracks first attach1 attach2 end2first kind1 kind2 keepalive);
+   observation = three points, each (closed1 closed2 cc1 cc2 registered conns counter goroutines) *)
+From V Require C20Replaced.
+Definition enc_pobs (o : C20Replaced.pobs) : val :=
+  VL [VI (C20Replaced.po_closed1 o); VI (C20Replaced.po_closed2 o); VI (C20Replaced.po_cc1 o);
+      VI (C20Replaced.po_cc2 o); VI (C20Replaced.po_reg o);
+      VI (C20Replaced.po_running o); VI (C20Replaced.po_running o); VI (C20Replaced.po_running o)].
+Definition dec_pobs (v : val) : C20Replaced.pobs :=
+  let a := as_int (nthv 5 v) in
+  {| C20Replaced.po_closed1 := as_int (nthv 0 v); C20Replaced.po_closed2 := as_int (nthv 1 v);
+     C20Replaced.po_cc1 := as_int (nthv 2 v); C20Replaced.po_cc2 := as_int (nthv 3 v);
+     C20Replaced.po_reg := as_int (nthv 4 v);
+     C20Replaced.po_running :=
+       if (a =? as_int (nthv 6 v)) && (a =? as_int (nthv 7 v)) && (length (as_list v) =? 8)%nat then a else -1 |}.
+Definition x_C20repl_run (c : val) : val :=
+  vlist enc_pobs (C20Replaced.repl_model (as_bool (nthv 2 c)) (as_bool (nthv 3 c)) (as_bool (nthv 4 c))).
+Definition x_C20repl_ok (v : val) : val :=
+  let c := nthv 0 v in
+  vbool (C20Replaced.ok_repl (as_bool (nthv 2 c)) (as_bool (nthv 3 c)) (as_bool (nthv 4 c))
+           (map dec_pobs (as_list (nthv 1 v)))).
